@@ -27,6 +27,7 @@
 #include <iomanip>
 #include <vector>
 #include <cstring>
+#include <cerrno>
 #ifdef HAVE_CONTRIB
 #  include "lib/ebus/contrib/contrib.h"
 #endif
@@ -1194,6 +1195,7 @@ result_t NumberDataType::parseInput(const string inputStr, unsigned int* parsedV
     if (hasFlag(EXP)) {  // IEEE 754 binary32
       const char* str = inputStr.c_str();
       char* strEnd = nullptr;
+      errno = 0;
       double dvalue = strtod(str, &strEnd);
       if (errno == ERANGE || strEnd == nullptr || strEnd == str || *strEnd != 0) {
         return RESULT_ERR_INVALID_NUM;  // invalid value
@@ -1210,6 +1212,7 @@ result_t NumberDataType::parseInput(const string inputStr, unsigned int* parsedV
     } else {
       const char* str = inputStr.c_str();
       char* strEnd = nullptr;
+      errno = 0;
       if (m_divisor == 1) {
         if (hasFlag(SIG)) {
           long signedValue = strtol(str, &strEnd, 0);
